@@ -545,6 +545,38 @@ fn run_corr(args: &Args) -> Report {
         compare(&mut drv, &mut rep, "rnd-oeq", &format!("oeq {} {} {} {} {} {}", s, h, p, s2, h2, p2));
     }
 
+    // premise sampling: the round-trip theorems (C16_rt_parsed, C16_rt_parsed_unicode) assume that the text
+    // Display / ToUnicode produce for the host of a tuple origin parses back to that host (C09, C12).  Both
+    // functions are answered by the real crates in the correspondence, so model and implementation cannot
+    // disagree about them; the premise itself is evaluated on the implementation for a fixed host pool
+    // (hyphen shapes, A-labels, digits, underscore, IPv4 spellings, IPv6) x the five schemes.
+    {
+        let hosts = [
+            "example.com", "r3---sn-xyz.googlevideo.com", "ab--cd.example.com", "-leading.example.com", "trailing-.example.com",
+            "a-.b-.c", "--", "xn--bcher-kva.example", "xn--4db.xn--4db", "xn--a-ecp.ru", "faß.de", "b\u{fc}cher.example", "\u{5d0}.\u{5d0}",
+            "a_b.example", "1.2.3.4", "0x7f.1", "[::1]", "[1:0:0:2::3]", "a.b.", "xn--", "xn--a", "x..y", "a1.9z", "0.a",
+        ];
+        for h in hosts {
+            for (sch, port) in [("https", ""), ("http", ":8080"), ("ws", ""), ("wss", ":1"), ("ftp", "")] {
+                let s = format!("{}://{}{}/p", sch, h, port);
+                if let Ok(u) = Url::parse(&s) {
+                    let o = u.origin();
+                    let mut verdict = String::from("premise holds");
+                    if o.is_tuple() {
+                        for (what, text) in [("ascii", o.ascii_serialization()), ("unicode", o.unicode_serialization())] {
+                            match Url::parse(&text) {
+                                Ok(w) if w.origin() == o => {}
+                                Ok(w) => verdict = format!("the {} serialization {:?} parses to origin {:?}", what, text, w.origin()),
+                                Err(e) => verdict = format!("the {} serialization {:?} does not parse ({})", what, text, e),
+                            }
+                        }
+                    }
+                    rep.case("premise-roundtrip", &req_urls(&[&s]), "premise holds", &verdict, true, if verdict == "premise holds" { "premise:ok" } else { "premise:violated" });
+                }
+            }
+        }
+    }
+
     // threaded creation; the "model" side is run on the schedule reconstructed from the observation and
     // predicts consecutive, pairwise distinct identities (C16_opaque)
     let k = if thorough { 20_000 } else { 1_000 };
